@@ -435,3 +435,65 @@ func h2BindPipelined(t *testing.T, vt *vhT) {
 		w.shutdown()
 	})
 }
+
+// h2SlowPermissionHandler (C07, C19; monitor only): the allocation's lifetime runs out while the PermissionHandler of a
+// CreatePermission / ChannelBind is still thinking.  Whatever the handler answers afterwards, the request is for an allocation
+// that no longer exists: it must not be answered with success (nothing was installed), as a Refresh in that position is not.
+func h2SlowPermissionHandler(t *testing.T, vt *vhT) {
+	for _, method := range []stun.Method{stun.MethodCreatePermission, stun.MethodChannelBind} {
+		synctest.Test(t, func(t *testing.T) {
+			vt.Note("slow-permission-handler scenario %s", method)
+			lis := []*h2Listener{{ip: net.ParseIP("10.0.0.1").To4()}}
+			w := newH2World(vt, ServerConfig{}, lis, true, false)
+			h := &h2Hist{vt: vt, w: w, lastTid: map[string]int{}, owner: map[string]string{}}
+			nonce, _ := w.srv.nonceHash.Generate()
+			cr := &h2Cred{mi: true, nonce: true, nonceOK: true, realm: true, uname: true, known: true, macOK: true, user: "alice", nonceVal: nonce, pass: h2Users["alice"]}
+			a := w.client(0, net.ParseIP("10.0.0.2").To4(), 4000)
+			peer := proto.PeerAddress{IP: net.ParseIP("10.0.0.9").To4(), Port: 9000}
+			send := func(typ stun.MessageType, attrs ...stun.Setter) *stun.Message {
+				h.tid++
+				a.sendRaw(h.build(typ, h.tid, cr, attrs...))
+				synctest.Wait()
+				var lastMsg *stun.Message
+				for _, d := range a.pc.drain() {
+					m := &stun.Message{Raw: append([]byte{}, d.data...)}
+					if m.Decode() == nil {
+						lastMsg = m
+					}
+				}
+
+				return lastMsg
+			}
+			if r := send(stun.NewType(stun.MethodAllocate, stun.ClassRequest), proto.RequestedTransport{Protocol: proto.ProtoUDP}, proto.Lifetime{Duration: 2 * time.Second}); r == nil ||
+				r.Type.Class != stun.ClassSuccessResponse {
+				vt.Alarm("h2-setup", "slow-permission-handler: Allocate: %v", r)
+				w.shutdown()
+
+				return
+			}
+			w.permDelay.Store(int64(3 * time.Second))
+			h.tid++
+			attrs := []stun.Setter{peer}
+			if method == stun.MethodChannelBind {
+				attrs = []stun.Setter{proto.ChannelNumber(0x4000), peer}
+			}
+			a.sendRaw(h.build(stun.NewType(method, stun.ClassRequest), h.tid, cr, attrs...))
+			time.Sleep(4 * time.Second) // the allocation ends at 2 s, the handler returns at 3 s
+			synctest.Wait()
+			w.permDelay.Store(0)
+			gone := w.srv.AllocationCount() == 0
+			for _, d := range a.pc.drain() {
+				m := &stun.Message{Raw: append([]byte{}, d.data...)}
+				if m.Decode() != nil || m.Type.Method != method {
+					continue
+				}
+				if gone && m.Type.Class == stun.ClassSuccessResponse {
+					vt.Alarm("success-for-ended-allocation", "the allocation's lifetime (2 s) ran out while the PermissionHandler of a %s was running (3 s); the request was then "+
+						"answered with SUCCESS although the allocation is gone and nothing was installed", method)
+				}
+			}
+			w.shutdown()
+		})
+		vt.Flush()
+	}
+}
